@@ -28,6 +28,7 @@ RULE = (
     "item is READY and Socket-Type compatible and identity <= 255; admitted under the announced identity or a fresh one; "
     "a rejected connection has both halves dropped."
     " Family accept-side (engine net): on a bound endpoint over a real transport, with the monitor installed before bind, after bind, or replaced after bind, a raw client presents one deviation (version, mechanism, signature, incompatible / unknown Socket-Type, 256-byte identity, a message where READY is due) — its connection is closed and the socket's CURRENT monitor is told AcceptFailed; a well-formed client that follows is Accepted."
+    ' Family reconnect-abandoned (engine world, shared with C14): a peer is admitted under an announced identity, recv is polled 0..2 times and abandoned (1..3 times over), then a SECOND connection completes a valid handshake announcing the same identity (the first still open, or closed but unnoticed): it is admitted under that identity and what it sends is delivered — it has become a peer.'
 )
 ASSUMPTIONS = ["freshness of auto-assigned identities (UUIDv4) is trusted", "monitor events (AcceptFailed) are observed by the net engine (C20)"]
 TRUSTED = ["RFC 28/29/30/31 compatibility table as typed into Spec/Compat.lean and vlib/worldgen.py"]
@@ -85,6 +86,7 @@ def cases(tier, rng):
             out.append(build(local, good, n=n, tag="deviation-first-item", **{**base, "first": fi}))
             n += 1
     out += accept_side_cases(tier)
+    out += wg.reconnect_abandoned_cases()
     product = itertools.product(wg.TYPES9, PEER_TYPES, VERSIONS, MECHS, SIGS, IDENTS, FIRST)
     if tier == "quick":
         allp = list(product)
@@ -179,6 +181,8 @@ def oracle(case, lines):
         return None
     if case.expect[0] == "accept-side":
         return accept_side_oracle(case, lines)
+    if case.expect[0] == "reconnect-abandoned":
+        return wg.reconnect_abandoned_oracle(case, lines)
     local, ptype, ver, mech, sig, ident, first = case.expect
     reasons = reference(*case.expect)
     res = list(zip(case.ops, lines[1:]))
@@ -208,7 +212,7 @@ def oracle(case, lines):
 
 
 def nontrivial(case, lines):
-    if case.expect is not None and case.expect[0] == "accept-side":
+    if case.expect is not None and case.expect[0] in ("accept-side", "reconnect-abandoned"):
         return True
     return case.expect is not None and len(reference(*case.expect)) <= 1
 
